@@ -339,6 +339,30 @@ def net_contains(net: Tuple[int, int, int], ip: Optional[Tuple[int, int]]) \
     return (ip[1] >> (bits - n)) == (val >> (bits - n))
 
 
+def lax_cidr_labels(patlist: str, ip: Optional[Tuple[int, int]],
+                    labels: Set[str]) -> None:
+    """Label pattern lists holding addr/len with host bits set, and whether
+    the network such a pattern would denote if its host bits were ignored
+    covers the queried address (where a lenient parser changes the result)"""
+
+    for pat in patlist.split(','):
+        pat = pat.lstrip('!')
+        addr, sep, plen = pat.partition('/')
+        base = parse_ip(addr)
+
+        if not sep or base is None or parse_net(pat) is not None or \
+                not plen.isdigit() or int(plen) > base[0]:
+            continue
+
+        labels.add('cidr-host-bits')
+        bits, val = base
+        n = int(plen)
+
+        if ip is not None and ip[0] == bits and \
+                (ip[1] >> (bits - n)) == (val >> (bits - n)):
+            labels.add('cidr-host-bits:would-cover-query')
+
+
 def host_patlist(patlist: str, names: Sequence[str],
                  ip: Optional[Tuple[int, int]], numeric: bool) \
         -> Tuple[bool, bool, bool]:
@@ -700,6 +724,8 @@ def _kh_labels(case, text, labels: Set[str]) -> None:
             if hosts['name'] in names and hosts['name']:
                 labels.add('hashed-hit')
             continue
+
+        lax_cidr_labels(hosts, ip, labels)
 
         if not any(c in hosts for c in _PATCHARS):
             if any(h in names for h in hosts.split(',')):
@@ -1197,6 +1223,8 @@ def ak_reference(entries, key: int, host: str, addr: str,
         ok = True
 
         for patlist in froms:
+            lax_cidr_labels(patlist, ip, labels)
+
             if host_patlist(patlist, (host, addr), ip, True)[0]:
                 labels.add('from-match')
             else:
@@ -1492,7 +1520,14 @@ def host_pattern(draw, targets: Sequence[str], addrs: Sequence[str],
     if mode <= 9 and cidr:
         addr = draw(S(list(addrs) + ADDRS))
         plens = V4_PREFIX if ':' not in addr else V6_PREFIX
-        return net_of(addr, draw(S(plens)))
+        plen = draw(S(plens))
+
+        if draw(I(0, 3)) == 0:
+            # address with host bits set: no network, hence (documented
+            # fallback) a literal pattern that no address can equal
+            return '%s/%d' % (addr, plen)
+
+        return net_of(addr, plen)
 
     return draw(S(GENERIC))
 
@@ -1874,6 +1909,7 @@ FAMILIES = [
                              'numeric-hit', 'bracket-hit', 'addr-only-hit',
                              'port-direct', 'port-fallback',
                              'marker:cert-authority', 'marker:revoked',
+                             'cidr-host-bits:would-cover-query',
                              'comment', 'blank'] + _DMG_KINDS}),
     Family('kh_keygen', run_kh_keygen, strategy=kh_keygen_strategy,
            budget={'quick': 320, 'thorough': 2000},
@@ -1893,5 +1929,6 @@ FAMILIES = [
                              'comma-in-quotes', 'space-in-quotes',
                              'escaped-quote', 'repeated-option',
                              'later-line-wins', 'ca-query', 'user-query',
-                             'damaged', 'keyword-case']}),
+                             'damaged', 'keyword-case',
+                             'cidr-host-bits:would-cover-query']}),
 ]
